@@ -41,6 +41,26 @@ Interpretation (weakest readings, DESIGN 3.4):
   minimum, an evident typo given the attribute's name and description).  Equality is accepted.
 * AIC: either least-squares convention is accepted (n ln(chi^2/n) + 2k, or chi^2 + 2k).
 * A data point exactly on the upper window edge may or may not belong to the window.
+
+Hardening round (HARDENING.md items 1-4, 6-11).  The spec grew by: the points a window holds and the point-count
+guard (FitPeaksDefs.NPointsMin/Max, NarrowVerdict; FitPeaks GuardStep with the invariants NarrowDecidedByPoints,
+PointCountsConsistent and the negative control "narrow_by_extent"), the variants of a window configuration
+(WindowVariants: element types of coordinate / estimates / width, memory layout of the data - TLC enumerates all
+81), data of one to five points (Gen TinyConfigs) and the `replay` event; the trace judge now also decides, for
+every automatic-window result, `window_too_narrow` against the number of grid points in the recorded window.
+The driver additionally: runs the window configurations at units 2^-40 .. 2^30 and shifts up to 12*2^32 units
+(window width / coordinate down to 1e-11), in all variants, with a second identical call and a bit-for-bit
+comparison of every argument afterwards; lists explicit windows in shuffled order, as [d, range] / [range, d] /
+a transposed view, on float32 / integer coordinates; gives model lists also as one-shot generators; scales
+spectra, the zero-degree-of-freedom windows and a new requirements part (a peak clearly too narrow / too wide /
+fine) by 2^-20 / 2^30 in x and 2^+-40 in y; repeats calls with the same objects; hands remove_peaks float32 /
+strided / row-of-2-d data, the results as list / tuple / iterator / generator in either order, compares points
+outside the windows bit for bit (also -0.0, NaN, infinities, subnormals), checks that the FitResults are left as
+they were and that a second removal agrees; re-runs a sample of the cases of every part at the end in another
+order (`replay`).  Unreadable or non-finite results are verdicts (`result_is_malformed`,
+`window_edge_is_not_finite`, `result_is_not_finite_or_not_an_integer`), the judge control corrupts accepted events
+only, and no self-test reads data the implementation produced.  TLC (model, negative controls, case generation)
+runs in threads beside the fits.
 """
 
 from __future__ import annotations
@@ -61,7 +81,8 @@ RULE = ('windows: integer configurations (estimates inside, on the edges of and 
         'below the grid spacing to beyond the range) scaled by powers of two; non-trivial = at least one window '
         'was cut by the data range or a neighbour. loop: all scripted verdict matrices; non-trivial = at least '
         'one fit ran. fits: non-trivial = statistics recomputed for a converged fit. removal: non-trivial = at '
-        'least one successful window')
+        'least one successful window. variants (element types, layouts, listing orders, magnitudes 2^-40..2^30) are '
+        'attached in turn to the cases of every part')
 
 MODELS = ('gaussian', 'lorentzian', 'pseudo_voigt')
 WORKERS = int(os.environ.get('VERIF_WORKERS', '16'))     # lowered while developing on a shared machine
@@ -73,10 +94,73 @@ def _exc_key(api, exc):
 
 
 def _to_units(v, unit):
-    """float -> (integer in units of `unit`, on-grid flag)."""
+    """float -> (integer in units of `unit`, on-grid flag); None if the value is not finite."""
+    if not math.isfinite(v):
+        return None, False
     q = v / unit
     r = round(q)
     return int(r), abs(q - r) <= 1e-9 * max(1.0, abs(q))
+
+
+def bits(v):
+    """Everything observable of a variable, bit for bit (-0.0 != 0.0, NaN payloads count)."""
+    out = (str(v.dtype), str(v.unit), tuple(v.dims), tuple(v.shape), np.ascontiguousarray(v.values).tobytes())
+    if getattr(v, 'variances', None) is not None:
+        out += (np.ascontiguousarray(v.variances).tobytes(),)
+    return out
+
+
+def da_bits(da):
+    return (bits(da.data), tuple((k, bits(c)) for k, c in sorted(da.coords.items())),
+            tuple((k, bits(m)) for k, m in sorted(da.masks.items())))
+
+
+def result_state(r):
+    """Everything a caller can observe of a FitResult (to notice results modified by a later call)."""
+    return (r.assessment.name, r.message, type(r.peak).__name__, r.peak.prefix, type(r.background).__name__,
+            r.background.prefix, tuple((k, bits(v)) for k, v in r.popt.items()), bits(r.window), bits(r.aic),
+            bits(r.red_chisq), bits(r.p_value))
+
+
+def results_agree(a, b):
+    """Two lists of FitResults describe the same fits (assessment, models, window bit for bit, popt to 1e-9)."""
+    return len(a) == len(b) and all(
+        p.assessment == q.assessment and _result_kinds(p) == _result_kinds(q) and bits(p.window) == bits(q.window)
+        and _popt_close(p.popt, q.popt) for p, q in zip(a, b, strict=True))
+
+
+def typed_array(values, want):
+    """numpy array of element type `want` if it holds `values` exactly, else float64: -> (array, type used)."""
+    v = np.asarray(values, dtype='float64')
+    if want == 'int64' and np.all(v == np.round(v)) and np.all(np.abs(v) < 2**53):
+        return v.astype('int64'), 'int64'
+    if want == 'float32':
+        with np.errstate(all='ignore'):
+            v32 = v.astype('float32')
+        if np.all(np.isfinite(v32)) and np.array_equal(v32.astype('float64'), v):
+            return v32, 'float32'
+    return v, 'float64'
+
+
+def laid_out(da, layout, dim):
+    """The same 1-d data array as a strided view of a longer one / as a row of a 2-d one (the other elements
+    hold other values)."""
+    if layout == 'strided':
+        def doubled(v, fill):
+            out = np.repeat(np.asarray(v), 2)
+            out[1::2] = fill
+            return out
+
+        data = sc.array(dims=[dim], values=doubled(da.values, -12345.0), unit=da.unit, dtype=da.dtype,
+                        variances=None if da.variances is None else doubled(da.variances, 1.0))
+        coords = {k: sc.array(dims=[dim], values=np.repeat(c.values, 2), unit=c.unit, dtype=c.dtype)
+                  for k, c in da.coords.items()}
+        return sc.DataArray(data, coords=coords)[dim, ::2]
+    if layout == 'row':
+        other = da.copy(deep=True)
+        other.values = other.values * 0.5 - 777.0
+        return sc.concat([other, da, other], 'row')['row', 1]
+    return da
 
 
 def _scripted_data(x, truth):
@@ -86,39 +170,102 @@ def _scripted_data(x, truth):
 
 
 # ----------------------------------------------------------------------------------------------- windows
-def _window_event(ctx, tid, models, c, unit, shift, step_units, factor_obj):
+BASE_WVARIANT = {'xd': 'float64', 'ed': 'float64', 'wd': 'float64', 'layout': 'contiguous'}
+SCRIPTED_K = 5          # linear background (2) + scripted peak without extra parameters (3)
+
+
+def _window_event(ctx, tid, models, c, unit, shift, step_units, factor_obj, variant=None, again=False, _blamed=False,
+                  width_in_steps=1.5):
     """Run fit_peaks(windows=scalar) for the integer configuration c (coordinates in `unit`, shifted by
-    `shift` units; data grid spacing `step_units`)."""
+    `shift` units; data grid spacing `step_units`), handed over in the given variant (element types of the
+    coordinate / estimates / width where they hold the values exactly, memory layout of the data)."""
     from scippneutron.peaks import FitParameters, FitRequirements, fit_peaks
 
     SB, SP, _ = models
-    step_units = Fraction(step_units)
-    npts = int((c['hi'] - c['lo']) / step_units) + 1
+    variant = dict(variant or BASE_WVARIANT)
+    step_units = int(step_units)
+    npts = (c['hi'] - c['lo']) // step_units + 1
     x = (np.arange(npts) * float(step_units) + c['lo'] + shift) * unit
+    # the scripted peak sits in the middle of the data; its width is ordinary (1.5 grid steps), clearly below the
+    # grid spacing (0.3: FWHM 0.71 steps) or clearly beyond every window (40): the fit starts from the exact
+    # parameters of noise-free data, so whatever the magnitudes it converges at once and the assessment cascade runs
     truth = {'a0': 3.0, 'a1': 0.0, 'amplitude': 7 * float(step_units) * unit,
-             'loc': float((c['lo'] + c['hi']) / 2 + shift) * unit, 'scale': 1.5 * float(step_units) * unit}
+             'loc': float((c['lo'] + c['hi']) / 2 + shift) * unit, 'scale': width_in_steps * float(step_units) * unit}
     data = _scripted_data(x, truth)
-    lp.Script.reset({}, truth)
+    xv, variant['xd'] = typed_array(x, variant['xd'])
+    data.coords['x'] = sc.array(dims=['x'], values=xv, unit='m')
+    data = laid_out(data, variant['layout'], 'x')
     cfg = {'ests': [e + shift for e in c['ests']], 'width': c['width'], 'lo': c['lo'] + shift,
-           'hi': c['hi'] + shift, 'fn': c['fn'], 'fd': c['fd']}
-    ev = {'ev': 'windows', 'tid': tid, 'cfg': cfg, 'out': 'ok', 'wins': [], 'ongrid': True}
-    est = sc.array(dims=['x'], values=[float(e) * unit for e in cfg['ests']], unit='m')
+           'hi': c['hi'] + shift, 'step': step_units, 'fn': c['fn'], 'fd': c['fd']}
+    ev = {'ev': 'windows', 'tid': tid, 'cfg': cfg, 'out': 'ok', 'wins': [], 'ongrid': True, 'assess': [],
+          'k': SCRIPTED_K, 'variant': variant, 'args_same': True, 'again_same': True, 'succ_req': [],
+          'assess_full': [], 'unit_log2': int(round(math.log2(unit))), 'peak_width_in_steps': width_in_steps}
+    ev_, variant['ed'] = typed_array([float(e) * unit for e in cfg['ests']], variant['ed'])
+    est = sc.array(dims=['x'], values=ev_, unit='m')
+    wv, variant['wd'] = typed_array([c['width'] * unit], variant['wd'])
+    width = sc.scalar(wv[0], unit='m')
+    fp = FitParameters(neighbor_separation_factor=factor_obj)
+    fr = FitRequirements(min_p_value=0.0)
+
+    def call():
+        lp.Script.reset({}, truth)
+        return fit_peaks(data, peak_estimates=est, windows=width, background=SB(degree=1, tag=1), peak=SP(extra=0, tag=1),
+                         fit_parameters=fp, fit_requirements=fr)
+
+    before = (da_bits(data), bits(est), bits(width), repr(fp), repr(fr))
     try:
-        res = fit_peaks(data, peak_estimates=est, windows=sc.scalar(c['width'] * unit, unit='m'),
-                        background=SB(degree=1, tag=1), peak=SP(extra=0, tag=1),
-                        fit_parameters=FitParameters(neighbor_separation_factor=factor_obj),
-                        fit_requirements=FitRequirements(min_p_value=0.0))
+        res = call()
     except Exception as e:  # noqa: BLE001
         ev['out'] = 'raised'
         ev['key'] = _exc_key('fit_peaks', e)
+        if variant != BASE_WVARIANT and not _blamed:
+            # which dimension of the variant is responsible: the layout alone, or the element types
+            alone = _window_event(ctx, tid, models, c, unit, shift, step_units, factor_obj,
+                                  {**BASE_WVARIANT, 'layout': variant['layout']}, _blamed=True, width_in_steps=width_in_steps)
+            same_failure = alone['out'] == 'raised' and alone['key'].startswith(ev['key'])
+            if same_failure and variant['layout'] != 'contiguous':
+                ev['key'] += f' (data {variant["layout"]})'
+            elif not same_failure and any(variant[k] != 'float64' for k in ('xd', 'ed', 'wd')):
+                ev['key'] += ' (element types other than float64)'
+            # (otherwise the base form of the configuration fails alike: no suffix)
         ev['exc'] = repr(e)[:200]
         return ev
     for r in res:
         lo, g1 = _to_units(float(r.window.values[0]), unit)
         hi, g2 = _to_units(float(r.window.values[1]), unit)
+        if lo is None or hi is None:
+            ev['out'] = 'nonfinite'
+            ev['wins'] = []
+            break
         ev['wins'].append([lo, hi])
         ev['ongrid'] = bool(ev['ongrid'] and g1 and g2)
+        ev['assess'].append('window_too_narrow' if r.assessment.name == 'window_too_narrow' else 'fitted')
+        ev['assess_full'].append(r.assessment.name)
+        ev['succ_req'].append(_scripted_requirements(r, x, step_units * unit) if r.assessment.name == 'success' else [True] * 6)
+    ev['args_same'] = bool((da_bits(data), bits(est), bits(width), repr(fp), repr(fr)) == before)
+    if again:                         # the same call again, with the very same objects
+        try:
+            ev['again_same'] = bool(results_agree(res, call()))
+        except Exception as e:  # noqa: BLE001
+            ev['again_same'] = False
+            ev['again_exc'] = repr(e)[:200]
     return ev
+
+
+def _scripted_requirements(r, x, step):
+    """Requirements 3..6 (weakest readings, see the module docstring) of a successful scripted fit, from the
+    returned parameters; the scripted peak is the harness' own Gaussian with FWHM = 2 sqrt(2 ln 2) scale and the
+    default FitRequirements (width factors 1) apply.  1 and 2 (AIC, p-value) are not evaluated here (True)."""
+    try:
+        w0, w1 = float(r.window.values[0]), float(r.window.values[1])
+        loc, amp, scale = (float(sc.values(r.popt['peak_' + n]).value) for n in ('loc', 'amplitude', 'scale'))
+        xs = x[(x >= w0) & (x <= w1)]
+        fw = 2 * math.sqrt(2 * lp.LN2) * abs(scale)
+        ok = all(map(math.isfinite, (w0, w1, loc, amp, scale)))
+        return [True, True, bool(ok and len(xs) and xs[0] <= loc <= xs[-1]), bool(ok and amp >= 0),
+                bool(ok and fw <= (w1 - w0) * (1 + 1e-9)), bool(ok and fw >= step * (1 - 1e-9))]
+    except Exception:  # noqa: BLE001
+        return [True, True, False, False, False, False]      # a success that cannot be read satisfies nothing
 
 
 def _cut(c):
@@ -132,24 +279,60 @@ def _cut(c):
 FACTORS = {(1, 3): 1 / 3, (1, 4): 0.25, (1, 2): 0.5, (1, 6): 1 / 6, (0, 1): 0.0, (5, 12): 5 / 12}
 
 
-def _windows_part(ctx, events, wcases):
+def _windows_part(ctx, events, wcases, tiny, variants, recipes):
     models = lp.make_scripted_models()
     rng = ctx.rng
+    variants = [v for v in sorted(variants, key=lambda v: json.dumps(v, sort_keys=True)) if v != BASE_WVARIANT]
+    rng.shuffle(variants)
+    nv = [0]
+
+    def variant_for(k):
+        """Every third case in a non-base variant (all 80 of them in turn)."""
+        if k % 3:
+            return BASE_WVARIANT
+        nv[0] += 1
+        return variants[nv[0] % len(variants)]
+
+    def run(c, unit, shift, step, factor, variant, nid):
+        again = nid[1] % 4 == 0
+        wis = (1.5, 0.3, 1.5, 40.0, 1.5)[nid[1] % 5]
+
+        def fn(evs):
+            evs.append(_window_event(ctx, len(evs), models, c, unit, shift, step, factor, variant, again, width_in_steps=wis))
+            ctx.case(nontrivial_id=nid if _cut(c) else None)
+        fn(events)
+        recipes.append((len(events) - 1, len(events), fn))
+
     if not ctx.thorough:
         # all single-estimate configurations + a stratified sample of the rest
         single = [c for c in wcases if len(c['cfg']['ests']) == 1]
         multi = [c for c in wcases if len(c['cfg']['ests']) > 1]
         wcases = single + rng.sample(multi, 500)
+        tiny = rng.sample(tiny, 80)
     else:
         wcases = rng.sample(wcases, 9000)
-    for k, wc in enumerate(wcases):
+    for k, wc in enumerate(wcases + tiny):
         c = wc['cfg']
-        unit = 2.0 ** ((k % 9) - 6)
+        # powers of two from 2^-6 to 2^2, every 8th case far smaller / larger (hidden absolute thresholds)
+        unit = 2.0 ** ((k % 9) - 6) if k % 8 else 2.0 ** (-40 if k % 16 else 30)
         shift = (0, 1200, -4800)[k % 3]
-        ev = _window_event(ctx, len(events), models, c, unit, shift, (6, 12, 3)[k % 3], FACTORS[(c['fn'], c['fd'])])
-        ev['expect'] = [[a + shift, b + shift] for a, b in wc['wins']]   # informational (TLC recomputes it)
-        events.append(ev)
-        ctx.case(nontrivial_id=('w', k) if _cut(c) else None)
+        run(c, unit, shift, (6, 12, 3)[k % 3], FACTORS[(c['fn'], c['fd'])], variant_for(k), ('w', k))
+        events[-1]['expect'] = [[a + shift, b + shift] for a, b in wc['wins']]   # informational (TLC recomputes it)
+    # one estimate in the middle of the data with a window over all of it: the scripted fit can succeed, at every
+    # magnitude of the coordinate, for an ordinary / too narrow / too wide peak (success => every requirement)
+    central = {'ests': [48], 'width': 100, 'lo': 0, 'hi': 96, 'fn': 1, 'fd': 3}
+    k = 0
+    for log2u in (-40, -20, -6, 0, 10, 30):
+        for shift in (0, 12 * 2**32):
+            for wis in (0.3, 1.5, 40.0):
+                k += 1
+
+                def fn(evs, a=(2.0 ** log2u, shift, variant_for(k)), wis=wis):
+                    evs.append(_window_event(ctx, len(evs), models, central, a[0], a[1], 6, FACTORS[(1, 3)], a[2], True,
+                                             width_in_steps=wis))
+                    ctx.case(nontrivial_id=('wc', log2u, shift, wis))
+                fn(events)
+                recipes.append((len(events) - 1, len(events), fn))
     # random configurations far beyond the exhaustive bounds (M2)
     nrand = 2500 if ctx.thorough else 250
     for k in range(nrand):
@@ -165,15 +348,14 @@ def _windows_part(ctx, events, wcases):
         width = 2 * rng.choice([rng.randrange(1, 120), rng.randrange(120, 2400), rng.randrange(2400, hi + 4000)])
         fn, fd = rng.choice(list(FACTORS))
         c = {'ests': ests, 'width': width, 'lo': lo, 'hi': hi, 'fn': fn, 'fd': fd}
-        unit = 2.0 ** rng.randrange(-12, 3)
-        shift = 12 * rng.randrange(-5000, 5000)
-        ev = _window_event(ctx, len(events), models, c, unit, shift, 240, FACTORS[(fn, fd)])
-        events.append(ev)
-        ctx.case(nontrivial_id=('wr', k) if _cut(c) else None)
+        unit = 2.0 ** rng.choice([-40, 30, *range(-12, 3)])
+        # also: a narrow grid far from the origin (window width / coordinate down to 1e-11)
+        shift = 12 * rng.choice([rng.randrange(-5000, 5000), rng.randrange(-5000, 5000), 2**32 + rng.randrange(0, 5000)])
+        run(c, unit, shift, 240, FACTORS[(fn, fd)], variant_for(k), ('wr', k))
 
 
 # ----------------------------------------------------------------------------------------------- loop
-def _loop_part(ctx, events, lcases):
+def _loop_part(ctx, events, lcases, recipes):
     from scippneutron.peaks import FitRequirements, fit_peaks
 
     SB, SP, _ = lp.make_scripted_models()
@@ -184,7 +366,15 @@ def _loop_part(ctx, events, lcases):
         small = [c for c in lcases if len(c['script']) <= 2]
         big = [c for c in lcases if len(c['script']) > 2]
         lcases = small + ctx.rng.sample(big, 400)
-    for c in lcases:
+    for ci, c in enumerate(lcases):
+        def fn(evs, c=c, ci=ci):
+            _loop_case(ctx, evs, c, ci, SB, SP, truth, x, data, fit_peaks, FitRequirements)
+        fn(events)
+        recipes.append((len(events) - 1, len(events), fn))
+
+
+def _loop_case(ctx, events, c, ci, SB, SP, truth, x, data, fit_peaks, FitRequirements):
+    if True:
         pk, bk, npts, script = c['pk'], c['bk'], c['npts'], c['script']
         nb = len(bk)
         if npts % 2 == 1:
@@ -200,22 +390,29 @@ def _loop_part(ctx, events, lcases):
         ev = {'ev': 'loop', 'tid': len(events), 'pk': pk, 'bk': bk, 'npts': npts, 'script': script, 'out': 'ok',
               'nres': 0, 'pb': [0, 0], 'outcome': '', 'fitted': []}
         try:
-            res = fit_peaks(data, peak_estimates=sc.array(dims=['x'], values=[16.0], unit='m'),
-                            windows=sc.array(dims=['x', 'range'], values=[[lo, hi]], unit='m'),
-                            background=bkgs if len(bkgs) > 1 else bkgs[0],
-                            peak=tuple(peaks) if len(peaks) > 1 else peaks[0],
-                            fit_requirements=FitRequirements(min_p_value=0.0))
+            # model specifications: instance, list, tuple, one-shot generator; the window as [x, range] or as the
+            # transposed [range, x] ("sizes {dim: n, 'range': 2}" names no order of the dimensions)
+            bspec = bkgs[0] if len(bkgs) == 1 and ci % 2 else (bkgs, (b for b in bkgs), tuple(bkgs))[ci % 3]
+            pspec = peaks[0] if len(peaks) == 1 and ci % 4 < 2 else (tuple(peaks), peaks, (p_ for p_ in peaks))[ci % 3]
+            win = sc.array(dims=['x', 'range'], values=[[lo, hi]], unit='m')
+            if ci % 5 == 1:
+                win = sc.array(dims=['range', 'x'], values=[[lo], [hi]], unit='m')
+            elif ci % 5 == 2:
+                win = win.transpose(['range', 'x'])
+            res = fit_peaks(data, peak_estimates=sc.array(dims=['x'], values=[16.0], unit='m'), windows=win,
+                            background=bspec, peak=pspec, fit_requirements=FitRequirements(min_p_value=0.0))
             ev['nres'] = len(res)
-            r = res[0]
             n_in = int(np.sum((x >= lo) & (x < hi)))
             if n_in != npts:
                 raise MachineryError(f'loop window holds {n_in} points, wanted {npts}')
-            ev['pb'] = [int(r.peak.tag), int(r.background.tag)]
-            a = r.assessment.name
-            ev['outcome'] = a if a in ('success', 'failed', 'window_too_narrow') else 'rejected'
-            ev['assess'] = a
-            ev['fitted'] = sorted({(p, b) for p, b in lp.Script.fitted if b is not None})
-            ev['fitted'] = [list(t) for t in ev['fitted']]
+            if len(res) == 1:
+                r = res[0]
+                ev['pb'] = [int(getattr(r.peak, 'tag', 0)), int(getattr(r.background, 'tag', 0))]
+                a = r.assessment.name
+                ev['outcome'] = a if a in ('success', 'failed', 'window_too_narrow') else 'rejected'
+                ev['assess'] = a
+                ev['fitted'] = sorted({(p, b) for p, b in lp.Script.fitted if b is not None})
+                ev['fitted'] = [list(t) for t in ev['fitted']]
         except MachineryError:
             raise
         except Exception as e:  # noqa: BLE001
@@ -227,7 +424,10 @@ def _loop_part(ctx, events, lcases):
 
 
 # ----------------------------------------------------------------------------------------------- removal, exact
-def _rmexact_part(ctx, events):
+SPECIALS = np.array([-0.0, np.nan, np.inf, -np.inf, 5e-324, -2.2250738585072014e-308, 0.0, 1.7976931348623157e308])
+
+
+def _rmexact_part(ctx, events, recipes):
     from scippneutron.peaks import FitAssessment, FitResult, remove_peaks
     from scippneutron.peaks.model import PolynomialModel
 
@@ -236,13 +436,21 @@ def _rmexact_part(ctx, events):
     bkg = PolynomialModel(degree=1, prefix='bkg_')
     fail_kinds = [a for a in FitAssessment if a != FitAssessment.success]
 
-    def one(inp, res):
+    def one(evs, inp, res, var):
+        """var = (element type of the data, layout of the data, form in which the results are listed)."""
+        dtype, layout, form = var
         n = len(inp)
         xs = np.arange(1, n + 1, dtype='float64')
-        da = sc.DataArray(sc.array(dims=['x'], values=np.asarray(inp, dtype='float64'), unit='counts'),
-                          coords={'x': sc.array(dims=['x'], values=xs, unit='counts')})
-        da.coords['aux'] = sc.arange('x', n, unit='s')
-        snap = da.copy(deep=True)
+
+        def make(values):
+            da = sc.DataArray(sc.array(dims=['x'], values=np.asarray(values, dtype=dtype), unit='counts'),
+                              coords={'x': sc.array(dims=['x'], values=xs, unit='counts')})
+            da.coords['aux'] = sc.arange('x', n, unit='s')
+            return laid_out(da, layout, 'x')
+
+        da = make(inp)
+        sp = make(SPECIALS[np.arange(n) % len(SPECIALS)])      # the same removal on special values (bit patterns)
+        snap, sp_snap = da.copy(deep=True), sp.copy(deep=True)
         frs = []
         for i, q in enumerate(res):
             frs.append(FitResult(
@@ -252,42 +460,75 @@ def _rmexact_part(ctx, events):
                 popt={'peak_amp': sc.scalar(float(q['amp']), unit='counts'),
                       'bkg_a0': sc.scalar(1.0, unit='counts'), 'bkg_a1': sc.scalar(0.0)},
                 window=sc.array(dims=['range'], values=[q['lo'] - 0.5, q['hi'] + 0.5], unit='counts')))
-        ev = {'ev': 'rmexact', 'tid': len(events), 'inp': list(map(int, inp)), 'out': 'ok',
+        states = [result_state(r) for r in frs]
+
+        def listed():
+            # the results are independent of each other: any listing order, any iterable
+            return {'list': frs, 'iterator': iter(frs), 'tuple': tuple(frs), 'reversed': frs[::-1],
+                    'generator': (r for r in frs[::-1])}[form]
+
+        ev = {'ev': 'rmexact', 'tid': len(evs), 'inp': list(map(int, inp)), 'out': 'ok', 'variant': list(var),
               'res': [{'succ': bool(q['succ']), 'lo': q['lo'], 'hi': q['hi'],
                        'pv': [q['amp'] + x for x in range(1, n + 1)]} for q in res],
-              'res_out': [], 'inp_after': [], 'input_same': True}
+              'res_out': [], 'inp_after': [], 'input_same': True, 'special_same': True, 'results_same': True,
+              'again_same': True}
         try:
-            out = remove_peaks(da, iter(frs) if len(frs) % 2 else frs)
-            vals = out.values
-            if not all(float(v).is_integer() for v in vals):
-                raise MachineryError('non-integer result of integer removal')
-            ev['res_out'] = [int(v) for v in vals]
+            out = remove_peaks(da, listed())
+            vals = np.asarray(out.values, dtype='float64')
             ev['inp_after'] = [int(v) for v in da.values]
-            ev['input_same'] = bool(sc.identical(da, snap))
+            ev['input_same'] = bool(da_bits(da) == da_bits(snap))
+            if not (len(vals) == n and np.all(np.isfinite(vals)) and all(float(v).is_integer() for v in vals)):
+                ev['out'] = 'nonfinite'           # (or not an integer: integers minus integers)
+                ev['values'] = [repr(float(v)) for v in vals[:12]]
+            else:
+                ev['res_out'] = [int(v) for v in vals]
             if not sc.identical(out.coords['x'], snap.coords['x']) or not sc.identical(out.coords['aux'], snap.coords['aux']):
                 ctx.violation('remove_peaks changed coordinates of the output', {'event': ev})
+            # bit patterns outside every successful window (-0.0, NaN, infinities, subnormals)
+            outside = np.array([not any(q['succ'] and q['lo'] <= x <= q['hi'] for q in res) for x in range(1, n + 1)])
+            so = remove_peaks(sp, listed())
+            sa = np.ascontiguousarray(np.asarray(so.values, dtype='float64'))
+            sb = np.ascontiguousarray(np.asarray(sp_snap.values, dtype='float64'))
+            same_bits = (sa.view(np.uint64) == sb.view(np.uint64)) | (np.isnan(sa) & np.isnan(sb)) if sa.shape == sb.shape \
+                else np.zeros(n, dtype=bool)
+            ev['special_same'] = bool(np.all(same_bits[outside]) and da_bits(sp) == da_bits(sp_snap))
+            ev['results_same'] = bool([result_state(r) for r in frs] == states)
+            ev['again_same'] = bool(bits(remove_peaks(da, listed()).data) == bits(out.data))
         except MachineryError:
             raise
         except Exception as e:  # noqa: BLE001
             ev['out'] = 'raised'
             ev['key'] = _exc_key('remove_peaks', e)
             ev['exc'] = repr(e)[:200]
-        events.append(ev)
+        evs.append(ev)
         ctx.case(nontrivial_id=('rx', tuple(inp), json.dumps(res)) if any(q['succ'] and q['lo'] <= q['hi'] for q in res) else None)
+
+    count = [0]
+
+    def run(inp, res):
+        count[0] += 1
+        k = count[0]
+        var = (('float64', 'float64', 'float32')[k % 3], ('contiguous', 'strided', 'contiguous', 'row')[k % 4],
+               ('list', 'iterator', 'tuple', 'reversed', 'generator')[k % 5])
+
+        def fn(evs, inp=list(inp), res=[dict(q) for q in res], var=var):
+            one(evs, inp, res, var)
+        fn(events)
+        recipes.append((len(events) - 1, len(events), fn))
 
     # all configurations of the exhaustive model's shape: N = 4, <= 2 results
     N = 4
     wins = [(lo, hi) for lo in range(1, N + 1) for hi in range(0, N + 1) if lo <= hi + 1]
     singles = [{'succ': s, 'lo': lo, 'hi': hi, 'amp': a} for s in (True, False) for lo, hi in wins for a in (1, 10)]
     inp0 = [7, 0, 5, 100]
-    one(inp0, [])
+    run(inp0, [])
     for q in singles:
-        one(inp0, [q])
+        run(inp0, [q])
     pairs = [(a, b) for a in singles for b in singles]
     if not ctx.thorough:
         pairs = rng.sample(pairs, 600)
     for a, b in pairs:
-        one([rng.randrange(0, 50) for _ in range(N)], [a, b])
+        run([rng.randrange(0, 50) for _ in range(N)], [a, b])
     for _ in range(1500 if ctx.thorough else 300):
         n = rng.choice([1, 2, 7, 30, 200])
         res = []
@@ -295,7 +536,7 @@ def _rmexact_part(ctx, events):
             lo = rng.randrange(1, n + 1)
             hi = rng.randrange(lo - 1, n + 1)
             res.append({'succ': rng.random() < 0.6, 'lo': lo, 'hi': hi, 'amp': rng.randrange(-50, 50)})
-        one([rng.randrange(-1000, 1000) for _ in range(n)], res)
+        run([rng.randrange(-1000, 1000) for _ in range(n)], res)
 
 
 # ----------------------------------------------------------------------------------------------- real fits
@@ -352,7 +593,26 @@ def _popt_close(a, b):
 
 
 def _fit_event(ctx, tid, r, x, y, var, step, req, spec_pk, spec_bk):
-    """Recompute everything stated about one FitResult."""
+    """Recompute everything stated about one FitResult; a result the harness cannot even read (fields missing,
+    of the wrong shape or type) is a verdict (`result_is_malformed`), not a crash."""
+    try:
+        ev = _fit_event_inner(ctx, tid, r, x, y, var, step, req, spec_pk, spec_bk)
+    except MachineryError:
+        raise
+    except Exception as e:  # noqa: BLE001
+        ev = {'ev': 'fit', 'tid': tid, 'assess': 'unreadable', 'k': 0, 'nmin': 0, 'nmax': 0, 'peak': '', 'bkg': '',
+              'models_ok': True, 'keys_ok': True, 'p_defined': True, 'req': [True] * 6, 'red_ok': True, 'p_ok': True,
+              'aic_ok': True, 'p_clearly_ok': False, 'recomputed': False, 'exc': repr(e)[:300]}
+        ev['malformed'] = True
+    ev.setdefault('malformed', False)
+    try:
+        ev['success_flag_ok'] = bool(bool(r.success) == (ev['assess'] == 'success')) or ev['malformed']
+    except Exception:  # noqa: BLE001
+        ev['success_flag_ok'] = False
+    return ev
+
+
+def _fit_event_inner(ctx, tid, r, x, y, var, step, req, spec_pk, spec_bk):
     w0, w1 = float(r.window.values[0]), float(r.window.values[1])
     sel = (x >= w0) & (x < w1)
     sel_closed = (x >= w0) & (x <= w1)
@@ -374,8 +634,9 @@ def _fit_event(ctx, tid, r, x, y, var, step, req, spec_pk, spec_bk):
         if a == 'success':
             ev['p_defined'] = False      # a success without finite parameters cannot satisfy anything
         return ev
-    if pp.get('scale', 1.0) < 1e-12 * step:
-        # degenerate width: the model is clamped by the implementation (documented nowhere): no recomputation
+    if pp.get('scale', 1.0) < 1e-6 * step:
+        # degenerate width (a peak a million times narrower than the grid spacing): the model is clamped by the
+        # implementation (documented nowhere): no recomputation
         if a == 'success':
             ev['req'][5] = False
         return ev
@@ -466,6 +727,11 @@ def _spectra_part(ctx, events, n_spectra, n_calls):
         deg = 1 + (si // 6) % 2
         x, y, var, truth = lp.synthetic_spectrum(nrng, n_points=n_points, n_peaks=n_peaks, bkg_degree=deg,
                                                  noise=noise, x0=x0, step=step, poisson=(si % 5 == 4))
+        # uniformly tiny / huge magnitudes (exact powers of two): hidden absolute thresholds
+        sx, sy = ((1.0, 1.0), (1.0, 1.0), (2.0**-20, 2.0**40), (2.0**30, 2.0**-40))[si % 4]
+        x, y, var, step = x * sx, y * sy, var * sy * sy, step * sx
+        truth = [(kind, {**p, 'loc': p['loc'] * sx, 'scale': p['scale'] * sx, 'amplitude': p['amplitude'] * sx * sy})
+                 for kind, p in truth]
         data = sc.DataArray(sc.array(dims=['d'], values=y, variances=var, unit='counts'),
                             coords={'d': sc.array(dims=['d'], values=x, unit='angstrom')})
         snapshot = data.copy(deep=True)
@@ -494,31 +760,51 @@ def _spectra_part(ctx, events, n_spectra, n_calls):
                 width = step * math.exp(rng.uniform(math.log(12), math.log(n_points / 2)))
             else:                  # the full range and beyond
                 width = span * rng.choice([1.0, 1.5])
-            explicit = rng.random() < 0.2
-            est_var = sc.array(dims=['d'], values=ests, unit='angstrom')
+            explicit = rng.random() < 0.2 or (ci == n_calls - 1 and si % 2 == 0)
+            cdata, csnap, variant = data, snapshot, ''
             if explicit:
+                # explicit windows are taken as given: any listing order, either order of the two dimensions, and
+                # (explicit windows only, see _windows_part for automatic ones) any element type of the coordinate
+                rng.shuffle(ests)
                 wv = [[e - width * rng.uniform(0.3, 0.7), e + width * rng.uniform(0.3, 0.7)] for e in ests]
                 windows = sc.array(dims=['d', 'range'], values=wv, unit='angstrom')
+                wl = rng.choice(['d,range', 'range,d', 'transposed view'])
+                if wl == 'range,d':
+                    windows = sc.array(dims=['range', 'd'], values=np.ascontiguousarray(np.asarray(wv).T), unit='angstrom')
+                elif wl == 'transposed view':
+                    windows = windows.transpose(['range', 'd'])
+                xt, xd = typed_array(x, rng.choice(['float64', 'float32', 'int64']))
+                if xd != 'float64':
+                    cdata = data.copy(deep=True)
+                    cdata.coords['d'] = sc.array(dims=['d'], values=xt, unit='angstrom')
+                    csnap = cdata.copy(deep=True)
+                variant = f'windows {wl}, coordinate {xd}'
             else:
                 windows = sc.scalar(width, unit='angstrom')
+            est_var = sc.array(dims=['d'], values=ests, unit='angstrom')
             fr = FitRequirements(min_p_value=req['min_p'], max_peak_width_factor=req['max_w'],
                                  min_peak_width_factor=req['min_w'])
             cev = {'ev': 'call', 'tid': len(events), 'nest': len(ests), 'out': 'ok', 'nres': 0, 'order_ok': True,
                    'iso': [], 'forms': [pform, bform], 'peak': pk_kinds, 'bkg': bk_kinds, 'explicit': explicit,
-                   'width_in_steps': round(width / step, 3)}
+                   'width_in_steps': round(width / step, 3), 'variant': variant, 'scales': [sx, sy], 'args_same': True,
+                   'again_same': True}
+            before = (bits(est_var), bits(windows), repr(fr))
             try:
-                res = fit_peaks(data, peak_estimates=est_var, windows=windows, background=bspec, peak=pspec,
+                res = fit_peaks(cdata, peak_estimates=est_var, windows=windows, background=bspec, peak=pspec,
                                 fit_requirements=fr)
             except Exception as e:  # noqa: BLE001
                 cev['out'] = 'raised'
                 cev['key'] = _exc_key('fit_peaks', e)
                 cev['exc'] = repr(e)[:200]
                 cev['ests_rel'] = [round((e_ - x[0]) / span, 4) for e_ in ests]
+                if variant:
+                    cev['key'] += f' ({variant})'
                 events.append(cev)
                 ctx.case()
                 continue
-            if not sc.identical(data, snapshot):
+            if da_bits(cdata) != da_bits(csnap):
                 ctx.violation('fit_peaks modified its input data', {'call': cev})
+            cev['args_same'] = bool((bits(est_var), bits(windows), repr(fr)) == before)
             cev['nres'] = len(res)
             # order: explicit windows are returned as given; automatic windows are ordered like the estimates
             if explicit:
@@ -540,7 +826,7 @@ def _spectra_part(ctx, events, n_spectra, n_calls):
                     try:
                         pk2, _ = _model_spec_repeat(pk_kinds, 'peak')
                         bk2, _ = _model_spec_repeat(bk_kinds, 'bkg')
-                        alone = fit_peaks(data, peak_estimates=est_var['d', i:i + 1],
+                        alone = fit_peaks(cdata, peak_estimates=est_var['d', i:i + 1],
                                           windows=sc.concat([r.window], 'd'),
                                           background=bk2, peak=pk2, fit_requirements=fr)
                         same = (len(alone) == 1 and alone[0].assessment == r.assessment
@@ -549,6 +835,17 @@ def _spectra_part(ctx, events, n_spectra, n_calls):
                         same = False
                         cev['iso_exc'] = repr(e)[:200]
                     cev['iso'].append(bool(same))
+            if (ctx.thorough and ci == 0) or (si % 4 == 1 and ci == 0) or (explicit and len(ests) <= 2):
+                # the same call again, with the same data / estimates / windows / requirements objects
+                if ctx.thorough or not any(r.assessment.name == 'failed' for r in res):
+                    try:
+                        again = fit_peaks(cdata, peak_estimates=est_var, windows=windows,
+                                          background=_model_spec_repeat(bk_kinds, 'bkg')[0],
+                                          peak=_model_spec_repeat(pk_kinds, 'peak')[0], fit_requirements=fr)
+                        cev['again_same'] = bool(results_agree(res, again))
+                    except Exception as e:  # noqa: BLE001
+                        cev['again_same'] = False
+                        cev['again_exc'] = repr(e)[:200]
             fits = cev.pop('_fits', [])
             events.append(cev)
             ctx.case()
@@ -563,7 +860,7 @@ def _spectra_part(ctx, events, n_spectra, n_calls):
                     for p in pk_kinds:
                         for b in bk_kinds:
                             try:
-                                [one] = fit_peaks(data, peak_estimates=est_var['d', i:i + 1], windows=win, background=b,
+                                [one] = fit_peaks(cdata, peak_estimates=est_var['d', i:i + 1], windows=win, background=b,
                                                   peak=p, fit_requirements=fr)
                                 o = one.assessment.name
                                 outs.append(o if o in ('success', 'failed', 'window_too_narrow') else 'rejected')
@@ -581,53 +878,122 @@ def _spectra_part(ctx, events, n_spectra, n_calls):
                                    'same': bool(same), 'peak': pk_kinds, 'bkg': bk_kinds})
                     ctx.case(nontrivial_id=('s', si, ci, i) if 'success' in outs[1:] else None)
             # ---- removal
-            _remove_event(ctx, events, remove_peaks, data, res, x, y)
+            _remove_event(ctx, events, remove_peaks, cdata, res, x, y)
     ctx.extra['fit_results_examined'] = n_results
 
 
-def _zero_dof_part(ctx, events, n_seeds):
-    """Windows holding exactly as many points as the model has parameters (and one more / one fewer)."""
+SCALES = ((1.0, 1.0), (2.0**-20, 2.0**40), (2.0**30, 2.0**-40), (2.0**-20, 2.0**-40), (2.0**30, 2.0**40))
+
+
+def _zero_dof_part(ctx, events, n_seeds, recipes):
+    """Windows holding exactly as many points as the model has parameters (and one more / one fewer), at ordinary,
+    tiny and huge magnitudes of the coordinate and of the data (exact powers of two)."""
     from scippneutron.peaks import fit_peaks
 
     rng = ctx.rng
     combos = [('linear', 'gaussian', 5), ('quadratic', 'lorentzian', 6), ('linear', 'pseudo_voigt', 6),
               ('quadratic', 'pseudo_voigt', 7)]
     req = {'min_p': 0.01, 'max_w': 1.0, 'min_w': 1.0}
+
+    def case(evs, seed, bk, pk, k, n, nseed, sx, sy):
+        nrng = np.random.default_rng(nseed)
+        step = 0.5 * sx
+        x = step * np.arange(81, dtype='float64')
+        loc = (20.0 + float(nrng.uniform(-0.2, 0.2))) * sx
+        s = float(nrng.choice([0.4, 0.7, 1.0])) * sx
+        pp = {'amplitude': 50.0 * sx * sy, 'loc': loc, 'scale': s, 'fraction': 0.5}
+        y = (10 + 0.05 * x / sx + nrng.normal(0, 0.3, len(x))) * sy + lp.np_peak(pk, x, pp)
+        var = np.full(len(x), 0.09 * sy * sy)
+        data = sc.DataArray(sc.array(dims=['d'], values=y, variances=var, unit='counts'),
+                            coords={'d': sc.array(dims=['d'], values=x, unit='angstrom')})
+        half = (n - 1) / 2 * step + 0.1 * step
+        c = (20.0 if n % 2 else 20.25) * sx
+        wv = [[c - half, c + half]]
+        if int(((x >= wv[0][0]) & (x < wv[0][1])).sum()) != n or int(((x >= wv[0][0]) & (x <= wv[0][1])).sum()) != n:
+            raise MachineryError(f'zero-dof window does not hold {n} points')
+        cev = {'ev': 'call', 'tid': 0, 'nest': 1, 'out': 'ok', 'nres': 0, 'order_ok': True, 'iso': [],
+               'forms': ['name', 'name'], 'peak': [pk], 'bkg': [bk], 'explicit': True, 'points': n, 'params': k,
+               'scales': [sx, sy], 'args_same': True, 'again_same': True}
+        try:
+            res = fit_peaks(data, peak_estimates=sc.array(dims=['d'], values=[20.0 * sx], unit='angstrom'),
+                            windows=sc.array(dims=['d', 'range'], values=wv, unit='angstrom'),
+                            background=bk, peak=pk)
+        except Exception as e:  # noqa: BLE001
+            cev.update(out='raised', key=_exc_key('fit_peaks', e), exc=repr(e)[:200])
+            evs.append(cev)
+            ctx.case()
+            return
+        cev['nres'] = len(res)
+        cev['order_ok'] = bool(all(np.array_equal(np.asarray(r.window.values), np.asarray(wv[0])) for r in res))
+        evs.append(cev)
+        if not cev['order_ok']:
+            return              # (the window is not the one given: the point counts below would not be comparable)
+        for r in res:
+            evs.append(_fit_event(ctx, 0, r, x, y, var, step, req, [pk], [bk]))
+            ctx.case(nontrivial_id=('z', seed, bk, pk, n, sx, sy))
+
     for seed in range(n_seeds):
-        for bk, pk, k in combos:
-            nrng = np.random.default_rng(rng.getrandbits(32))
-            step = 0.5
-            x = step * np.arange(81, dtype='float64')
-            loc = 20.0 + float(nrng.uniform(-0.2, 0.2))
-            s = float(nrng.choice([0.4, 0.7, 1.0]))
-            pp = {'amplitude': 50.0, 'loc': loc, 'scale': s, 'fraction': 0.5}
-            y = 10 + 0.05 * x + lp.np_peak(pk, x, pp) + nrng.normal(0, 0.3, len(x))
-            var = np.full(len(x), 0.09)
-            data = sc.DataArray(sc.array(dims=['d'], values=y, variances=var, unit='counts'),
-                                coords={'d': sc.array(dims=['d'], values=x, unit='angstrom')})
+        for ci, (bk, pk, k) in enumerate(combos):
+            nseed = rng.getrandbits(32)
+            sx, sy = SCALES[(seed * len(combos) + ci) % len(SCALES)]
             for n in (k - 1, k, k + 1):
-                half = (n - 1) / 2 * step + 0.1 * step
-                c = 20.0 if n % 2 else 20.25
-                wv = [[c - half, c + half]]
-                cev = {'ev': 'call', 'tid': 0, 'nest': 1, 'out': 'ok', 'nres': 0, 'order_ok': True, 'iso': [],
-                       'forms': ['name', 'name'], 'peak': [pk], 'bkg': [bk], 'explicit': True, 'points': n, 'params': k}
-                try:
-                    res = fit_peaks(data, peak_estimates=sc.array(dims=['d'], values=[20.0], unit='angstrom'),
-                                    windows=sc.array(dims=['d', 'range'], values=wv, unit='angstrom'),
-                                    background=bk, peak=pk)
-                except Exception as e:  # noqa: BLE001
-                    cev.update(out='raised', key=_exc_key('fit_peaks', e), exc=repr(e)[:200])
-                    events.append(cev)
-                    ctx.case()
-                    continue
-                cev['nres'] = len(res)
-                events.append(cev)
-                for r in res:
-                    fev = _fit_event(ctx, 0, r, x, y, var, step, req, [pk], [bk])
-                    if fev['nmin'] != n:
-                        raise MachineryError(f'zero-dof window holds {fev["nmin"]} points, wanted {n}')
-                    events.append(fev)
-                    ctx.case(nontrivial_id=('z', seed, bk, pk, n))
+                def fn(evs, a=(seed, bk, pk, k, n, nseed, sx, sy)):
+                    case(evs, *a)
+                start = len(events)
+                fn(events)
+                recipes.append((start, len(events), fn))
+
+
+def _requirements_part(ctx, events, recipes):
+    """One well separated Gaussian on a flat background, fitted with requirements it clearly violates (a peak
+    narrower than min_peak_width_factor grid spacings; wider than max_peak_width_factor windows) and clearly meets,
+    at ordinary, tiny and huge magnitudes of x and y: the assessment must not depend on the magnitudes (whatever it
+    is, `success` requires every requirement - judged per result like all other fits)."""
+    from scippneutron.peaks import FitRequirements, fit_peaks
+
+    rng = ctx.rng
+
+    def case(evs, nseed, sx, sy, which):
+        nrng = np.random.default_rng(nseed)
+        step = 0.5 * sx
+        x = step * np.arange(121, dtype='float64') - 7.0 * sx
+        width_steps, req = {
+            'too narrow': (0.45, {'min_p': 1e-6, 'max_w': 1.0, 'min_w': 4.0}),     # FWHM ~ 1.06 steps < 4 steps
+            'too wide': (6.0, {'min_p': 1e-6, 'max_w': 0.25, 'min_w': 1.0}),        # FWHM ~ 14 steps > 0.25 * 40 steps
+            'fine': (2.0, {'min_p': 1e-6, 'max_w': 1.0, 'min_w': 1.0}),
+        }[which]
+        pp = {'amplitude': 400.0 * width_steps * sx * sy, 'loc': 23.1 * sx, 'scale': width_steps * step}
+        y = (30 + nrng.normal(0, 1.0, len(x))) * sy + lp.np_gaussian(x, pp['amplitude'], pp['loc'], pp['scale'])
+        var = np.full(len(x), sy * sy)
+        data = sc.DataArray(sc.array(dims=['d'], values=y, variances=var, unit='counts'),
+                            coords={'d': sc.array(dims=['d'], values=x, unit='angstrom')})
+        cev = {'ev': 'call', 'tid': 0, 'nest': 1, 'out': 'ok', 'nres': 0, 'order_ok': True, 'iso': [],
+               'forms': ['name', 'name'], 'peak': ['gaussian'], 'bkg': ['linear'], 'explicit': False, 'which': which,
+               'scales': [sx, sy], 'args_same': True, 'again_same': True}
+        try:
+            res = fit_peaks(data, peak_estimates=sc.array(dims=['d'], values=[23.0 * sx], unit='angstrom'),
+                            windows=sc.scalar(20.0 * sx, unit='angstrom'), background='linear', peak='gaussian',
+                            fit_requirements=FitRequirements(min_p_value=req['min_p'], max_peak_width_factor=req['max_w'],
+                                                             min_peak_width_factor=req['min_w']))
+        except Exception as e:  # noqa: BLE001
+            cev.update(out='raised', key=_exc_key('fit_peaks', e), exc=repr(e)[:200])
+            evs.append(cev)
+            ctx.case()
+            return
+        cev['nres'] = len(res)
+        evs.append(cev)
+        for r in res:
+            evs.append(_fit_event(ctx, 0, r, x, y, var, step, req, ['gaussian'], ['linear']))
+            ctx.case(nontrivial_id=('q', which, sx, sy))
+
+    for sx, sy in SCALES:
+        nseed = rng.getrandbits(32)
+        for which in ('too narrow', 'too wide', 'fine'):
+            def fn(evs, a=(nseed, sx, sy, which)):
+                case(evs, *a)
+            start = len(events)
+            fn(events)
+            recipes.append((start, len(events), fn))
 
 
 def _model_spec_repeat(kinds, role):
@@ -637,11 +1003,17 @@ def _model_spec_repeat(kinds, role):
 def _remove_event(ctx, events, remove_peaks, data, res, x, y):
     d0 = sc.DataArray(sc.values(data.data), coords=dict(data.coords))
     d0.coords['aux'] = sc.arange('d', len(x), unit='s')
+    tid = len(events)
+    d0 = laid_out(d0, ('contiguous', 'strided', 'row')[tid % 3], 'd')
     snap = d0.copy(deep=True)
-    ev = {'ev': 'remove', 'tid': len(events), 'out': 'ok', 'input_same': True, 'coords_same': True, 'cover': [],
-          'same': [], 'subok': [], 'nsucc': 0}
+    ev = {'ev': 'remove', 'tid': tid, 'out': 'ok', 'input_same': True, 'coords_same': True, 'cover': [],
+          'same': [], 'subok': [], 'nsucc': 0, 'results_same': True, 'again_same': True}
     try:
-        out = remove_peaks(d0, res)
+        states = [result_state(r) for r in res]
+        listed = (res, tuple(res[::-1]), iter(list(res)))[tid % 3]      # any listing order, any iterable
+        out = remove_peaks(d0, listed)
+        ev['results_same'] = bool([result_state(r) for r in res] == states)
+        ev['again_same'] = bool(bits(remove_peaks(d0, list(res)).data) == bits(out.data)) if tid % 3 == 0 else True
     except Exception as e:  # noqa: BLE001
         ev['out'] = 'raised'
         ev['key'] = _exc_key('remove_peaks', e)
@@ -649,9 +1021,18 @@ def _remove_event(ctx, events, remove_peaks, data, res, x, y):
         events.append(ev)
         ctx.case()
         return
-    ev['input_same'] = bool(sc.identical(d0, snap))
-    ev['coords_same'] = bool(sc.identical(out.coords['d'], snap.coords['d']) and sc.identical(out.coords['aux'], snap.coords['aux'])
-                             and out.unit == snap.unit and out.dims == snap.dims)
+    ev['input_same'] = bool(da_bits(d0) == da_bits(snap))
+    try:
+        ev['coords_same'] = bool(sc.identical(out.coords['d'], snap.coords['d']) and sc.identical(out.coords['aux'], snap.coords['aux'])
+                                 and out.unit == snap.unit and out.dims == snap.dims)
+        o = np.asarray(out.values, dtype='float64')
+        if o.shape != y.shape:
+            raise ValueError('shape')
+    except Exception:  # noqa: BLE001
+        ev['coords_same'] = False
+        events.append(ev)
+        ctx.case()
+        return
     half = np.zeros(len(x))      # sum of peaks, window read as [w0, w1)
     closed = np.zeros(len(x))    # window read as [w0, w1]
     mag = np.abs(y).copy()
@@ -661,10 +1042,13 @@ def _remove_event(ctx, events, remove_peaks, data, res, x, y):
         if r.assessment.name != 'success':
             continue
         ev['nsucc'] += 1
-        w0, w1 = float(r.window.values[0]), float(r.window.values[1])
-        pk, _ = _result_kinds(r)
-        pp = _strip(r.popt, r.peak.prefix)
-        pv = lp.np_peak(pk, x, pp)
+        try:
+            w0, w1 = float(r.window.values[0]), float(r.window.values[1])
+            pk, _ = _result_kinds(r)
+            pp = _strip(r.popt, r.peak.prefix)
+            pv = lp.np_peak(pk, x, pp)
+        except Exception:  # noqa: BLE001
+            return              # an unreadable result: already reported by its fit event (result_is_malformed)
         h = (x >= w0) & (x < w1)
         c = (x >= w0) & (x <= w1)
         half += np.where(h, pv, 0.0)
@@ -672,19 +1056,32 @@ def _remove_event(ctx, events, remove_peaks, data, res, x, y):
         mag += np.where(c, np.abs(pv), 0.0)
         cov_half |= h
         cov_closed |= c
-    o = out.values
     tol = 1e-12 * mag + 1e-300
-    subok = (np.abs(o - (y - half)) <= tol) | (np.abs(o - (y - closed)) <= tol)
+    with np.errstate(all='ignore'):
+        subok = (np.abs(o - (y - half)) <= tol) | (np.abs(o - (y - closed)) <= tol)
     ev['cover'] = [1 if cov_half[i] else (2 if cov_closed[i] else 0) for i in range(len(x))]
-    ev['same'] = [bool(v) for v in (o == y)]
+    ev['same'] = [bool(v) for v in (o.view(np.uint64) == np.asarray(y, dtype='float64').view(np.uint64))]   # bit for bit
     ev['subok'] = [bool(v) for v in subok]
     events.append(ev)
     ctx.case(nontrivial_id=('rm', ev['tid']) if ev['nsucc'] else None)
 
 
 # ----------------------------------------------------------------------------------------------- run
+KEEP = ('ev', 'tid', 'cfg', 'out', 'wins', 'ongrid', 'pk', 'bk', 'npts', 'script', 'nres', 'pb', 'outcome', 'fitted',
+        'nest', 'order_ok', 'iso', 'assess', 'k', 'nmin', 'nmax', 'models_ok', 'keys_ok', 'p_defined', 'req',
+        'red_ok', 'p_ok', 'aic_ok', 'p_clearly_ok', 'nb', 'outs', 'same', 'inp', 'res', 'res_out', 'inp_after',
+        'input_same', 'coords_same', 'cover', 'subok', 'variant', 'args_same', 'again_same', 'malformed',
+        'success_flag_ok', 'special_same', 'results_same', 'second', 'key', 'succ_req', 'assess_full')
+
+
+def kept(e):
+    return {k: v for k, v in e.items() if k in KEEP}
+
+
 def run(ctx):
+    import time
     import warnings
+    from concurrent.futures import ThreadPoolExecutor
 
     warnings.simplefilter('ignore')     # numpy's RankWarning of polynomial guesses on few points is not a verdict
     ctx.rule = RULE
@@ -695,27 +1092,21 @@ def run(ctx):
     ctx.assume('the stated requirements are read in their weakest form (see driver docstring); a data point '
                'exactly on the upper window edge may or may not belong to the window')
     ctx.assume('grids are uniform (the property speaks of "the grid spacing"); data carry variances')
-    # ---- 1. design
+    ctx.assume('element types (float32 / integer-typed coordinate, estimates, width), memory layout (strided view, row '
+               'of 2-d data), listing order of explicit windows / fit results and the order of the two dimensions of '
+               'explicit windows do not change a value, so they are admissible inputs; a second identical call must '
+               'agree with the first (assessment, models, window bit for bit, parameters to 1e-9)')
+    # ---- 1. design and case generation run beside the fits of part 3 (TLC in threads, fits in this one)
+    pool = ThreadPoolExecutor(max_workers=5)
     cfg = 'MC_FitPeaks_thorough.cfg' if ctx.thorough else 'MC_FitPeaks.cfg'
-    res = ctx.tlc('peaks/MC_FitPeaks.tla', cfg, timeout=1500, workers=WORKERS)
-    require_ok(ctx, res, 'FitPeaks model')
-    for neg in ('windows', 'loop', 'assess', 'nocopy', 'allresults'):
-        ctx.tlc('peaks/MC_FitPeaks.tla', f'Neg_FitPeaks_{neg}.cfg', expect_error=True, timeout=300, workers=min(WORKERS, 4))
-    # ---- 2. enumerated cases
-    wf, lf = ctx.tmp / 'win.ndjson', ctx.tmp / 'loop.ndjson'
-    gen = ctx.tlc('peaks/Gen_FitPeaks.tla', workers=1, env={'WIN_FILE': str(wf), 'LOOP_FILE': str(lf)},
-                  timeout=600, count=False)
-    require_ok(ctx, gen, 'Gen_FitPeaks')
-    wcases = [json.loads(line) for line in wf.read_text().splitlines() if line.strip()]
-    lcases = [json.loads(line) for line in lf.read_text().splitlines() if line.strip()]
-    g = gen.tagged('GEN')
-    if not g or g[0][1] != len(wcases) or g[0][2] != len(lcases):
-        raise MachineryError(f'case generation incomplete: {g} vs {len(wcases)}, {len(lcases)}')
-    ctx.extra['enumerated_window_configurations'] = len(wcases)
-    ctx.extra['enumerated_loop_behaviours'] = len(lcases)
+    wf, lf, tf_, vf = (ctx.tmp / f'{n}.ndjson' for n in ('win', 'loop', 'tiny', 'variants'))
+    f_gen = pool.submit(ctx.tlc, 'peaks/Gen_FitPeaks.tla', workers=1, timeout=600, count=False,
+                        env={'WIN_FILE': str(wf), 'LOOP_FILE': str(lf), 'TINY_FILE': str(tf_), 'VARIANT_FILE': str(vf)})
+    f_mc = pool.submit(ctx.tlc, 'peaks/MC_FitPeaks.tla', cfg, timeout=1500, workers=max(2, WORKERS // 2))
+    f_negs = [pool.submit(ctx.tlc, 'peaks/MC_FitPeaks.tla', f'Neg_FitPeaks_{neg}.cfg', expect_error=True, timeout=300,
+                          workers=2) for neg in ('windows', 'loop', 'assess', 'nocopy', 'allresults', 'guard')]
     events: list = []
-    import time
-
+    recipes: list = []
     timing = {}
 
     def timed(name, fn, *a):
@@ -723,12 +1114,61 @@ def run(ctx):
         fn(*a)
         timing[name] = round(time.time() - t0, 1)
 
-    timed('windows', _windows_part, ctx, events, wcases)
-    timed('loop', _loop_part, ctx, events, lcases)
-    timed('rmexact', _rmexact_part, ctx, events)
-    # ---- 3. recorded fits of synthetic spectra
+    # ---- 3. recorded fits of synthetic spectra (first: they do not need the enumerated cases)
     timed('spectra', _spectra_part, ctx, events, 40 if ctx.thorough else 8, 3 if ctx.thorough else 2)
-    timed('zero_dof', _zero_dof_part, ctx, events, 6 if ctx.thorough else 2)
+    timed('zero_dof', _zero_dof_part, ctx, events, 6 if ctx.thorough else 2, recipes)
+    timed('requirements', _requirements_part, ctx, events, recipes)
+    timed('rmexact', _rmexact_part, ctx, events, recipes)
+    # ---- 2. enumerated cases
+    require_ok(ctx, f_mc.result(), 'FitPeaks model')
+    for f in f_negs:
+        f.result()              # a negative control that was not rejected raises MachineryError
+    gen = f_gen.result()
+    pool.shutdown()
+    require_ok(ctx, gen, 'Gen_FitPeaks')
+
+    def load(p):
+        return [json.loads(line) for line in p.read_text().splitlines() if line.strip()]
+
+    wcases, lcases, tiny, variants = load(wf), load(lf), load(tf_), load(vf)
+    g = gen.tagged('GEN')
+    if not g or g[0][1:] != [len(wcases), len(lcases), len(tiny), len(variants)]:
+        raise MachineryError(f'case generation incomplete: {g} vs {len(wcases)}, {len(lcases)}, {len(tiny)}, {len(variants)}')
+    ctx.extra['enumerated_window_configurations'] = len(wcases) + len(tiny)
+    ctx.extra['enumerated_loop_behaviours'] = len(lcases)
+    ctx.extra['enumerated_window_variants'] = len(variants)
+    timed('windows', _windows_part, ctx, events, wcases, tiny, variants, recipes)
+    timed('loop', _loop_part, ctx, events, lcases, recipes)
+    # ---- 4. replay: a sample of the cases of every part again, in another order (HARDENING item 6)
+    t0 = time.time()
+    n_first = len(events)
+    by_kind: dict = {}
+    for rec in recipes:
+        if rec[1] > rec[0]:
+            by_kind.setdefault(events[rec[0]]['ev'] + str(events[rec[0]].get('params', '')), []).append(rec)
+    sample = []
+    for recs in by_kind.values():
+        sample += ctx.rng.sample(recs, min(len(recs), 150 if ctx.thorough else 30))
+    ctx.rng.shuffle(sample)
+    n_replayed = 0
+    for start, stop, fn in sample:
+        second: list = []
+        fn(second)
+        firsts = events[start:stop]
+        if len(second) != len(firsts):
+            events.append({'ev': 'replay', 'tid': 0, 'what': firsts[0]['ev'], 'same': False, 'second': kept(firsts[0]),
+                           'note': f'{len(firsts)} events first, {len(second)} on replay'})
+            continue
+        for e1, e2 in zip(firsts, second, strict=True):
+            k1, k2 = kept(e1), kept(e2)
+            k1.pop('tid', None), k2.pop('tid', None)
+            same = json.dumps(k1, sort_keys=True) == json.dumps(k2, sort_keys=True)
+            events.append({'ev': 'replay', 'tid': 0, 'what': e1['ev'], 'same': bool(same), 'second': kept(e2),
+                           **({} if same else {'first': kept(e1)})})
+            n_replayed += 1
+    timing['replay'] = round(time.time() - t0, 1)
+    ctx.extra['replayed_in_another_order'] = n_replayed
+    ctx.extra['first_pass_events'] = n_first
     ctx.extra['seconds_by_part'] = timing
     for i, e in enumerate(events):
         e['tid'] = i
@@ -740,63 +1180,79 @@ def run(ctx):
     ctx.extra['events_by_kind'] = kinds
     ctx.extra['assessments_seen'] = _count(events, 'fit', 'assess')
     # ---- TLC judges every event
-    keep = ('ev', 'tid', 'cfg', 'out', 'wins', 'ongrid', 'pk', 'bk', 'npts', 'script', 'nres', 'pb', 'outcome', 'fitted',
-            'nest', 'order_ok', 'iso', 'assess', 'k', 'nmin', 'nmax', 'models_ok', 'keys_ok', 'p_defined', 'req',
-            'red_ok', 'p_ok', 'aic_ok', 'p_clearly_ok', 'nb', 'outs', 'same', 'inp', 'res', 'res_out', 'inp_after',
-            'input_same', 'coords_same', 'cover', 'subok')
     tf = ctx.tmp / 'c17.ndjson'
-    write_ndjson(tf, [{k: v for k, v in e.items() if k in keep} for e in events])
+    write_ndjson(tf, [kept(e) for e in events])
     tr = ctx.tlc('peaks/Trace_FitPeaks.tla', workers=1, env={'TRACE_FILE': str(tf)}, timeout=1500)
     require_ok(ctx, tr, 'Trace_FitPeaks')
     done = tr.tagged('DONE')
     if not done or done[0][1] != len(events):
         raise MachineryError(f'trace validation incomplete: {done} vs {len(events)} events')
     ctx.traces(len(events))
-    _judge_control(ctx, events, keep)
-    api = {'rmexact': 'remove_peaks', 'remove': 'remove_peaks'}
+    rejected = {r[1] for r in tr.tagged('REJECT')}
     for _, line, _tid, clause in tr.tagged('REJECT'):
         e = events[line - 1]
-        if clause == 'raised_exception':
-            key = e.get('key', f'{api.get(e["ev"], "fit_peaks")} raised')
-        else:
-            key = f'{e["ev"]}: {clause}'
-            if e['ev'] == 'windows' and clause != 'window_differs_from_documented_construction':
-                key = f'automatic windows: {clause}'
-                if clause == 'window_outside_data_range':
-                    key += f' ({_escape_provenance(e)})'
-        ctx.violation(key, {'event': {k: v for k, v in e.items() if k not in ('cover', 'same', 'subok')}})
+        ctx.violation(violation_key(e, clause), {'event': {k: v for k, v in e.items() if k not in ('cover', 'same', 'subok')}})
+    # the control corrupts events the judge ACCEPTED (so its outcome cannot depend on the code under test)
+    _judge_control(ctx, [e for i, e in enumerate(events) if i + 1 not in rejected])
 
 
-def _judge_control(ctx, events, keep):
-    """Negative control of the judge: corrupted copies of accepted events must be rejected (one field each),
-    and a trace with a removed line is noticed by the event count."""
+API = {'rmexact': 'remove_peaks', 'remove': 'remove_peaks'}
+
+
+def violation_key(e, clause):
+    if e['ev'] == 'replay':
+        inner = e['second']
+        if clause == 'replayed_case_differs_from_its_first_evaluation':
+            return f'replay: {clause} ({inner["ev"]})'
+        return violation_key({**inner, 'key': inner.get('key') or e.get('key')}, clause) + ('' if e['same'] else ' [second evaluation only]')
+    if clause == 'raised_exception':
+        return e.get('key') or f'{API.get(e["ev"], "fit_peaks")} raised'
+    key = f'{e["ev"]}: {clause}'
+    if e['ev'] == 'windows' and clause in ('window_count', 'window_outside_data_range', 'window_does_not_contain_estimate',
+                                           'window_too_close_to_neighbour', 'window_edge_is_not_finite'):
+        key = f'automatic windows: {clause}'
+        if clause == 'window_outside_data_range':
+            key += f' ({_escape_provenance(e)})'
+    return key
+
+
+def _judge_control(ctx, events):
+    """Negative control of the judge: corrupted copies of accepted events must be rejected (one field each)."""
     import copy
 
     bad = []
-    lo = next((e for e in events if e['ev'] == 'loop' and e['out'] == 'ok'), None)
-    if lo:
-        b = copy.deepcopy(lo)
+
+    def corrupt(pred, change):
+        e = next((e for e in events if pred(e)), None)
+        if e is not None:
+            b = copy.deepcopy(e)
+            change(b)
+            bad.append(b)
+
+    def swap_pb(b):
         b['pb'] = [b['pb'][0], b['pb'][1] % len(b['bk']) + 1] if len(b['bk']) > 1 else [b['pb'][0] + 1, b['pb'][1]]
-        bad.append(b)
-    rx = next((e for e in events if e['ev'] == 'rmexact' and e['out'] == 'ok' and e['res_out']), None)
-    if rx:
-        b = copy.deepcopy(rx)
-        b['res_out'][0] += 1
-        bad.append(b)
-    fe = next((e for e in events if e['ev'] == 'fit' and e['assess'] == 'success' and e['p_defined'] and all(e['req'])), None)
-    if fe:
-        b = copy.deepcopy(fe)
-        b['req'][1] = False
-        bad.append(b)
-    we = next((e for e in events if e['ev'] == 'windows' and e['out'] == 'ok' and e['wins']), None)
-    if we:
-        b = copy.deepcopy(we)
-        b['wins'][0] = [b['wins'][0][0], b['cfg']['hi'] + 2]
-        bad.append(b)
+
+    corrupt(lambda e: e['ev'] == 'loop' and e['out'] == 'ok', swap_pb)
+    corrupt(lambda e: e['ev'] == 'rmexact' and e['out'] == 'ok' and e['res_out'], lambda b: b['res_out'].__setitem__(0, b['res_out'][0] + 1))
+    corrupt(lambda e: e['ev'] == 'rmexact' and e['out'] == 'ok' and e['res_out'], lambda b: b.__setitem__('special_same', False))
+    corrupt(lambda e: e['ev'] == 'rmexact' and e['out'] == 'ok' and e['res_out'], lambda b: b.__setitem__('results_same', False))
+    corrupt(lambda e: e['ev'] == 'fit' and e['assess'] == 'success' and e['p_defined'] and all(e['req']),
+            lambda b: b['req'].__setitem__(1, False))
+    corrupt(lambda e: e['ev'] == 'fit', lambda b: b.__setitem__('malformed', True))
+    corrupt(lambda e: e['ev'] == 'windows' and e['out'] == 'ok' and e['wins'],
+            lambda b: b['wins'].__setitem__(0, [b['wins'][0][0], b['cfg']['hi'] + 2]))
+    corrupt(lambda e: e['ev'] == 'windows' and e['out'] == 'ok' and e['ongrid'] and 'window_too_narrow' in e['assess']
+            and any(w[1] - w[0] < 2 * e['cfg']['step'] for w, a in zip(e['wins'], e['assess'], strict=False)
+                    if a == 'window_too_narrow'),
+            lambda b: b.__setitem__('assess', ['fitted'] * len(b['assess'])))
+    corrupt(lambda e: e['ev'] == 'windows' and e['out'] == 'ok', lambda b: b.__setitem__('args_same', False))
+    corrupt(lambda e: e['ev'] == 'call' and e['out'] == 'ok', lambda b: b.__setitem__('again_same', False))
+    corrupt(lambda e: e['ev'] == 'replay' and e['same'], lambda b: b.__setitem__('same', False))
     if not bad:
+        ctx.extra['judge_control'] = 'no accepted event to corrupt'
         return
     tf = ctx.tmp / 'c17-control.ndjson'
-    write_ndjson(tf, [{k: v for k, v in e.items() if k in keep} for e in bad])
+    write_ndjson(tf, [kept(e) for e in bad])
     tr = ctx.tlc('peaks/Trace_FitPeaks.tla', workers=1, env={'TRACE_FILE': str(tf)}, timeout=300, count=False)
     require_ok(ctx, tr, 'Trace_FitPeaks (control)')
     if len(tr.tagged('REJECT')) != len(bad):
@@ -852,5 +1308,11 @@ META = {
             'independent closed forms and every stated requirement is evaluated; TLC judges every recorded event.',
     'note': 'Trusted: TLC, scipp, numpy, mpmath. Numeric closeness of statistics (1e-9) and of the subtraction '
             '(1e-12) is decided by the harness on the recorded points, not by TLC. Requirements are read in their '
-            'weakest form (driver docstring). Uniform grids only.',
+            'weakest form (driver docstring). Uniform grids only. Hardening round: TLC also decides the point-count '
+            'guard on the window model (decided by the points a window holds, never by its extent) and judges, for every '
+            'recorded automatic window, window_too_narrow against the grid points it holds and success against the '
+            'requirements of the scripted fit; configurations are replayed at magnitudes 2^-40..2^30, with float32 / '
+            'integer-typed coordinates, estimates and widths, strided / row-of-2-d data, data of 1-5 points; explicit '
+            'windows in shuffled order and both dimension orders; removal compared bit for bit incl. special values, '
+            'with the results left untouched; second identical calls; a sample of all parts replayed at the end.',
 }
